@@ -16,13 +16,14 @@
 (*   bytes      the code string, one integer 0..255 per byte               *)
 (*   st         witness of the instruction boundaries: st[p+1] = 1 iff an  *)
 (*              instruction starts at offset p.  It is supplied by the     *)
-(*              harness and VERIFIED here (WitnessBad/Truncated): the      *)
+(*              harness and VERIFIED here (WitnessBad): the                *)
 (*              formula below has exactly one solution, the decoding that  *)
 (*              starts at offset 0, so what a boundary is is decided by    *)
 (*              this module (no recursion over 60 kB code strings needed). *)
 (*   nconsts nnames nvars ncells   sizes of co_consts, co_names,           *)
 (*              co_varnames, co_cellvars + co_freevars                     *)
-(*   knone      knone[i+1] = 1 iff co_consts[i] is None                    *)
+(*   kkind      kind of co_consts[i] at kkind[i+1]: 1 None, 2 code object,  *)
+(*              3 str, 4 tuple, 0 anything else                            *)
 (*   stacksize  co_stacksize                                               *)
 (*   lnotab firstlineno nlines     line table, first line, number of lines *)
 (*              of the source (0 = source not available)                   *)
@@ -55,8 +56,6 @@ Arg(c, p) == IF B(c, p) < HAVE_ARG THEN 0
                   THEN (IF RawArg(c, p - 3) >= 16384 THEN BIG ELSE 65536 * RawArg(c, p - 3) + RawArg(c, p))
                   ELSE RawArg(c, p)
 
-StartsOf(c) == { p \in 0..(CodeLen(c) - 1) : Codes[c].st[p + 1] = 1 }
-
 \* Offsets at which the boundary witness is not the decoding from offset 0.
 WitnessBad(c) ==
   LET n == CodeLen(c)
@@ -66,28 +65,21 @@ WitnessBad(c) ==
           \cup { p \in 0..(n - 1) : st[p + 1] = 1 /\
                    LET e == p + Size(c, p)
                    IN e <= n /\ ~( (\A q \in (p + 1)..(e - 1) : st[q + 1] = 0) /\ (e < n => st[e + 1] = 1) ) }
-\* Instructions whose operand bytes run past the end of the code string.
-Truncated(c) == { p \in StartsOf(c) : p + Size(c, p) > CodeLen(c) }
-
 NoArgOps == {1, 2, 3, 4, 5, 9, 10, 11, 12, 15, 19, 20, 22, 23, 24, 25, 26, 27, 28, 29, 54, 55, 56, 57, 59, 60,
              61, 62, 63, 64, 65, 66, 67, 68, 70, 71, 72, 75, 76, 77, 78, 79, 80, 81, 83, 84, 86, 87, 88, 89}
 ArgOps == {90, 91, 92, 93, 94, 95, 96, 97, 98, 100, 101, 102, 103, 104, 105, 106, 107, 108, 109, 110, 111, 112,
            113, 114, 115, 116, 119, 120, 121, 122, 124, 125, 126, 130, 131, 132, 133, 134, 135, 136, 137, 138,
            140, 141, 142, 143, 144, 145, 146, 147, 148}
-\* Undefined opcodes; EXTENDED_ARG not followed by an instruction that takes an operand.
-OpcodeBad(c) ==
-  { p \in StartsOf(c) :
-      \/ B(c, p) \notin (NoArgOps \cup ArgOps)
-      \/ B(c, p) = EXTENDED_ARG /\ ~(p + 3 < CodeLen(c) /\ B(c, p + 3) >= HAVE_ARG /\ B(c, p + 3) # EXTENDED_ARG) }
+AllOps == NoArgOps \cup ArgOps
 
 NameOps == {90, 91, 95, 96, 97, 98, 101, 106, 108, 109, 116}   \* index co_names
 VarOps == {124, 125, 126}                                      \* index co_varnames
 CellOps == {135, 136, 137, 138, 148}                           \* index co_cellvars + co_freevars
 CountOps == {92, 94, 102, 103, 104, 131, 140, 141, 142}        \* operand is a count of stack items
 OperandOK(c, o, a) ==
-  CASE o \in NameOps -> a < Codes[c].nnames
-    [] o = 100 -> a < Codes[c].nconsts
+  CASE o = 100 -> a < Codes[c].nconsts
     [] o \in VarOps -> a < Codes[c].nvars
+    [] o \in NameOps -> a < Codes[c].nnames
     [] o \in CellOps -> a < Codes[c].ncells
     [] o = 107 -> a <= 10                 \* < <= == != > >= in not-in is is-not exception-match
     [] o = 130 -> a <= 2                  \* raise / raise e / raise e from c
@@ -95,14 +87,27 @@ OperandOK(c, o, a) ==
     [] o \in {145, 146, 147} -> a >= 1
     [] o \in CountOps -> a < 65536
     [] OTHER -> TRUE
-OperandBad(c) == { p \in StartsOf(c) : ~OperandOK(c, B(c, p), Arg(c, p)) }
 
 AbsJumps == {111, 112, 113, 114, 115, 119}
 RelJumps == {93, 110, 120, 121, 122, 143}
+JumpOps == AbsJumps \cup RelJumps
 JumpTarget(c, p) == IF B(c, p) \in AbsJumps THEN Arg(c, p) ELSE p + 3 + Arg(c, p)
 \* a jump must land on an instruction start inside the code, and not between EXTENDED_ARG and its instruction
 TargetOK(c, t) == IsStart(c, t) /\ ~ExtPrefix(c, t)
-JumpBad(c) == { p \in StartsOf(c) : B(c, p) \in (AbsJumps \cup RelJumps) /\ ~TargetOK(c, JumpTarget(c, p)) }
+
+\* What is wrong with the instruction at p (one pass over the instructions, reachable or not):
+\*  0 nothing; 1 its operand bytes run past the end of the code string; 2 undefined opcode, or EXTENDED_ARG
+\*  not followed by an instruction that takes an operand; 3 operand does not index an existing constant /
+\*  name / local / cell / comparison (or is not a legal count); 4 jump target is not an instruction start
+InstrKind(c, p) ==
+  IF p + Size(c, p) > CodeLen(c) THEN 1
+  ELSE IF B(c, p) \notin AllOps THEN 2
+  ELSE IF B(c, p) < HAVE_ARG THEN 0
+  ELSE IF B(c, p) = EXTENDED_ARG /\ ~(p + 3 < CodeLen(c) /\ B(c, p + 3) >= HAVE_ARG /\ B(c, p + 3) # EXTENDED_ARG) THEN 2
+  ELSE IF ~OperandOK(c, B(c, p), Arg(c, p)) THEN 3
+  ELSE IF B(c, p) \in JumpOps /\ ~TargetOK(c, JumpTarget(c, p)) THEN 4
+  ELSE 0
+InstrBad(c) == { p \in 0..(CodeLen(c) - 1) : Codes[c].st[p + 1] = 1 /\ InstrKind(c, p) # 0 }
 
 \* The line table (py/code.go Addr2Line): pairs (address increment, line increment) of unsigned bytes;
 \* line = firstlineno + sum of the line increments of the entries whose cumulated address is <= addr.
@@ -129,28 +134,20 @@ LnotabCheck(c) ==
              ELSE IF Codes[c].nlines > 0 /\ r.line > Codes[c].nlines THEN "range"
              ELSE ""
 
-MinOrNone(S) == IF S = {} THEN -1 ELSE CHOOSE x \in S : \A y \in S : x <= y
-
-\* Verdict of the static clauses for one code object: -1 / "" = holds, else the first offending offset.
-StaticCheck(c) ==
-  LET w == MinOrNone(WitnessBad(c))
-      t == IF w # -1 THEN -1 ELSE MinOrNone(Truncated(c))
-      decoded == w = -1 /\ t = -1
-      o == IF decoded THEN MinOrNone(OpcodeBad(c)) ELSE -1
-      fine == decoded /\ o = -1
-  IN [witness |-> w, trunc |-> t, opcode |-> o,
-      operand |-> IF fine THEN MinOrNone(OperandBad(c)) ELSE -1,
-      jump |-> IF fine THEN MinOrNone(JumpBad(c)) ELSE -1,
-      lnotab |-> IF decoded THEN LnotabCheck(c) ELSE ""]
-NoChk == [witness |-> -1, trunc |-> -1, opcode |-> -1, operand |-> -1, jump |-> -1, lnotab |-> ""]
-Runnable(k) == k.witness = -1 /\ k.trunc = -1 /\ k.opcode = -1 /\ k.operand = -1 /\ k.jump = -1
+\* Verdict of the static clauses for one code object (each part is evaluated once: TLC re-evaluates a
+\* LET definition or an operator argument at every reference, so nothing expensive is named twice).
+StaticCheck(c) == [wit |-> WitnessBad(c), ins |-> InstrBad(c), ln |-> LnotabCheck(c)]
+NoChk == [wit |-> {}, ins |-> {}, ln |-> ""]
+Runnable(k) == k.wit = {} /\ k.ins = {}
+MinOf(S) == CHOOSE x \in S : \A y \in S : x <= y
 
 ---------------------------------------------------------------------------
 (* The machine: value stack of tags, block stack, unwinding *)
 
-\* tags: V any value; N the constant None; W(t) a why code pushed by unwinding (2 return, 3 break,
+\* tags: V any value; N the constant None; KC KS KT a code object / str / tuple constant; W(t) a why code pushed by unwinding (2 return, 3 break,
 \* 4 continue, 6 silenced); R(t) the pending return value / continue target below W; ET EV TB the
 \* exception triple pushed for a handler.
+NAnnOf(a) == (a \div 65536) % 32768
 T(k) == [k |-> k, t |-> 0]
 V == T("V")
 Why(t) == [k |-> "W", t |-> t]
@@ -167,6 +164,19 @@ Push(s, x) == Append(s, x)
 PushN(s, n) == s \o [i \in 1..n |-> V]
 
 \* at a handler: the three values of the exception being replaced, then traceback, value, type
+ConstTag(k) == CASE k = 1 -> T("N") [] k = 2 -> T("KC") [] k = 3 -> T("KS") [] k = 4 -> T("KT") [] OTHER -> V
+
+\* MAKE_FUNCTION / MAKE_CLOSURE (clos = 1) with operand a find, from the top: the qualified name (a str
+\* constant), the code object, [the tuple of cells], [the tuple of annotated parameter names, then the
+\* annotation values], then for each keyword-only default its value above its name (a str constant), then
+\* the positional defaults.
+FuncShapeOK(s, a, clos) ==
+  LET top == Len(s)
+      base == top - 2 - clos - NAnnOf(a)      \* position of the value of the last keyword-only default
+  IN /\ s[top].k = "KS" /\ s[top - 1].k = "KC"
+     /\ (NAnnOf(a) > 0 => s[top - 2 - clos].k = "KT")
+     /\ \A j \in 1..((a \div 256) % 256) : s[base - (2 * j - 1)].k = "KS"
+
 ExcSix == <<V, V, V, T("TB"), T("EV"), T("ET")>>
 
 St(p, s, b) == [pc |-> p, stk |-> s, blk |-> b, ph |-> "run"]
@@ -200,7 +210,7 @@ NoRaise == {1, 2, 3, 4, 5, 9, 80, 83, 87, 89, 100, 110, 113, 119, 120, 121, 122,
 
 Binary == {19, 20, 22, 23, 24, 25, 26, 27, 28, 29, 55, 56, 57, 59, 62, 63, 64, 65, 66, 67, 75, 76, 77, 78, 79}
 NArgs(a) == (a % 256) + 2 * ((a \div 256) % 256)
-NAnn(a) == (a \div 65536) % 32768
+NAnn(a) == NAnnOf(a)
 
 \* <<values that must be on the stack, values popped, values pushed>> of the plain opcodes
 Eff(o, a) ==
@@ -237,8 +247,6 @@ Eff(o, a) ==
     [] o = 131 -> <<NArgs(a) + 1, NArgs(a) + 1, 1>>        \* CALL_FUNCTION
     [] o \in {140, 141} -> <<NArgs(a) + 2, NArgs(a) + 2, 1>> \* CALL_FUNCTION_VAR / _KW
     [] o = 142 -> <<NArgs(a) + 3, NArgs(a) + 3, 1>>        \* CALL_FUNCTION_VAR_KW
-    [] o = 132 -> <<NArgs(a) + NAnn(a) + 2, NArgs(a) + NAnn(a) + 2, 1>>   \* MAKE_FUNCTION: defaults, annotations, code, qualname
-    [] o = 134 -> <<NArgs(a) + NAnn(a) + 3, NArgs(a) + NAnn(a) + 3, 1>>   \* MAKE_CLOSURE: + the tuple of cells
     [] o = 133 -> <<a, a, 1>>                     \* BUILD_SLICE
     [] o \in {135, 136, 148} -> <<0, 0, 1>>       \* LOAD_CLOSURE, LOAD_DEREF, LOAD_CLASSDEREF
     [] o = 137 -> <<1, 1, 0>>                     \* STORE_DEREF
@@ -260,7 +268,7 @@ Succ(c, p, s, b) ==
       [] o = 3 -> IF need(3) THEN {St(n, Drop(s, 3) \o <<s[Len(s)], s[Len(s) - 2], s[Len(s) - 1]>>, b)} ELSE under
       [] o = 4 -> IF need(1) THEN {St(n, Push(s, Top(s)), b)} ELSE under
       [] o = 5 -> IF need(2) THEN {St(n, s \o <<s[Len(s) - 1], s[Len(s)]>>, b)} ELSE under
-      [] o = 100 -> {St(n, Push(s, IF Codes[c].knone[a + 1] = 1 THEN T("N") ELSE V), b)}
+      [] o = 100 -> {St(n, Push(s, ConstTag(Codes[c].kkind[a + 1])), b)}
       \* YIELD_FROM: the sub-iterator is exhausted (its result replaces it), or a value is yielded and the
       \* instruction is executed again when the generator is resumed with the sent value on top
       [] o = 72 -> IF need(2) THEN {St(n, Drop(s, 2) \o <<V>>, b), St(p, Drop(s, 1) \o <<V>>, b)} ELSE under
@@ -314,8 +322,11 @@ Succ(c, p, s, b) ==
       \* SETUP_WITH: the manager is replaced by its __exit__, a finally block is pushed, then the result of __enter__
       [] o = 143 -> IF need(1) THEN {St(n, Drop(s, 1) \o <<V, V>>, Append(b, Blk(FIN, n + a, Len(s))))} ELSE under
       [] o = 130 -> IF need(a) THEN {Unwind(p, Drop(s, a), b, "exc", 0)} ELSE under
-      [] OTHER -> LET e == Eff(o, a)
-                  IN IF ~need(e[1]) THEN under ELSE {St(n, PushN(Drop(s, e[2]), e[3]), b)})
+      [] o \in {132, 134} ->
+           IF ~need(NArgs(a) + NAnn(a) + (IF o = 134 THEN 3 ELSE 2)) THEN under
+           ELSE IF ~FuncShapeOK(s, a, IF o = 134 THEN 1 ELSE 0) THEN {Bad("make_function", p)}
+           ELSE {St(n, Push(Drop(s, NArgs(a) + NAnn(a) + (IF o = 134 THEN 3 ELSE 2)), V), b)}
+      [] OTHER -> UNION { IF ~need(e[1]) THEN under ELSE {St(n, PushN(Drop(s, e[2]), e[3]), b)} : e \in {Eff(o, a)} })
 
 \* the stack never drops below the level of an enclosing block (3 more inside a handler)
 LevelsOK(s, b) == \A j \in 1..Len(b) : Len(s) >= b[j].l + (IF b[j].t = HND THEN 3 ELSE 0)
